@@ -517,6 +517,9 @@ func C15Metadata(c *core.Ctx) {
 		add("generated", g.descriptor(i%3 == 0), false)
 	}
 
+	// by value / by pointer / nested, and EntitiesDescriptor groups
+	containerCases(c, g)
+
 	// the documents the library generates
 	oldNow := saml.TimeNow
 	defer func() { saml.TimeNow = oldNow }()
